@@ -151,6 +151,14 @@ static Trace run_history(std::vector<Op> const &alpha, std::vector<int> const &h
   vproxy *px = new vproxy(6, true);
   px->set_target_temperature(300.0);
   place(*px, 0);
+  // scripted forces are in use throughout: a constant force is added to variable a from the engine's force callback
+  // whenever a exists (it must keep arriving at the atoms when the biases that used a are gone)
+  px->force_callback = [px]() {
+    colvar *cv = px->cv("a");
+    if (cv && cv->is_enabled(colvardeps::f_cv_active)) cv->add_bias_force(colvarvalue(0.35));
+    return COLVARS_OK;
+  };
+  if (px->config("scriptedColvarForces on\n") != 0) { fprintf(stderr, "HARNESS-ERROR: scriptedColvarForces rejected: %s\n", px->errtxt.c_str()); exit(3); }
   long step = 0;
   bool stepped = false;
   auto do_step = [&]() {
